@@ -103,3 +103,4 @@ def _(self: ERef, other: ERef) -> Tuple[str, Opt[int], Opt[ERef]]:
         hint(implies(other_current is not None, forall_of("ERef", lambda x: implies(
             IsAnc(other, x) and Dist(other, x) == other_distance + 1,
             some(other_current).parent is not None and x == some(some(other_current).parent)))))
+
